@@ -15,6 +15,10 @@ are fewer), ref -1 = a never-issued id, a STRING ref = that literal string as se
 issued: "", "%s", …).  ["X", None] calls cleanup_expired() with its default max_age (read from
 the signature).  ["C", client, version, metadata] passes the optional metadata argument.
 ["R", ref, None, id] dispatches a message WITHOUT a method (a response-shaped message).
+["I", ref, spec, None] is an initialize WITHOUT id (the session it leaves behind is found by comparing
+list_sessions() before and after).  case["supply"] = [k, …] replaces the id supply: the session manager
+becomes a subclass of the real one whose generate_session_id() hands out "scripted-k" in that order
+(repeats allowed: that is the point), then falls back to the inherited uuid4-based one.
 
 The ids the implementation returns are numbered in order of first appearance; those numbers
 are what the model receives as "the id supply's choices" (a repeated id gets its old number, so
@@ -116,6 +120,33 @@ def new_handler():
     return ph
 
 
+def scripted_manager(supply):
+    from chuk_mcp.server.session.memory import InMemorySessionManager
+
+    class Scripted(InMemorySessionManager):
+        def generate_session_id(self):
+            if supply:
+                return "scripted-%d" % supply.pop(0)
+            return super().generate_session_id()
+
+    return Scripted()
+
+
+def kind_of(method, msgid):
+    """what the dispatcher of a bare ProtocolHandler (see new_handler) does with this method"""
+    if method is None or method == "":
+        return "noMethod"
+    if method in ("verif/raises", "verif/raises-empty"):
+        return "handlerRaised"
+    if method == "verif/nonsense":
+        return "handlerNonsense"
+    if method in ("ping", "verif/answers"):
+        return "handlerReturned" if msgid is not None else "handlerRaised"  # no envelope for a null id
+    if method in ("notifications/initialized", "verif/silent"):
+        return "handlerReturned"
+    return "unknownMethod"
+
+
 # literal strings usable as (never issued) session ids: falsy, format-hostile, look-alikes
 GHOSTS = ["", "%s", "{0}", "a\nb", "sessions", "0", "None", "\u2028", "x" * 1000]
 
@@ -144,8 +175,22 @@ def run_case(case):
     try:
         with patched_clock(clock):
             handler = new_handler()
+            if case.get("supply") is not None:
+                handler.session_manager = scripted_manager(list(case["supply"]))
             mgr = handler.session_manager
             envelopes = {}
+            handed_out = []  # ids drawn through generate_session_id (when the manager draws them there)
+            try:
+                _orig_gen = mgr.generate_session_id
+
+                def _recording_gen():
+                    x = _orig_gen()
+                    handed_out.append(x)
+                    return x
+
+                mgr.generate_session_id = _recording_gen
+            except Exception:
+                pass
 
             def snapshot():
                 snap = []
@@ -212,7 +257,12 @@ def run_case(case):
                     st["intruder_visible"] = mgr.get_session("intruder") is not None
                 elif code == "I":
                     spec = op[2]
-                    msg = {"jsonrpc": "2.0", "id": op[3], "method": "initialize"}
+                    msg = {"jsonrpc": "2.0", "method": "initialize"}
+                    if op[3] is not None:
+                        msg["id"] = op[3]
+                    else:
+                        before = set(mgr.list_sessions())
+                        drawn_before = len(handed_out)
                     if not spec.get("noparams"):
                         params = {"capabilities": {}}
                         if "client" in spec:
@@ -230,7 +280,20 @@ def run_case(case):
                     st["resp_id"] = rd.get("id") if isinstance(rd, dict) else None
                     st["has_result"] = isinstance(rd, dict) and isinstance(rd.get("result"), dict)
                     answered = rd["result"].get("protocolVersion") if st["has_result"] else None
-                    if isinstance(new_sid, str):
+                    if op[3] is None:
+                        born = [x for x in mgr.list_sessions() if x not in before]
+                        if not born and len(handed_out) == drawn_before + 1 and mgr.get_session(handed_out[-1]) is not None:
+                            born = [handed_out[-1]]  # a repeated id: the session replaced an existing one
+                        st["answered"] = resp is not None
+                        st["returned_sid"] = new_sid is not None
+                        st["born"] = len(born)
+                        if len(born) == 1 and isinstance(born[0], str):
+                            k, fresh = number(born[0])
+                            st["out"] = ["silent", k]
+                            st["fresh"] = fresh
+                        else:
+                            st["out"] = ["silent", None]
+                    elif isinstance(new_sid, str):
                         k, fresh = number(new_sid)
                         st["out"] = ["inited", k, answered]
                         st["fresh"] = fresh
@@ -305,6 +368,19 @@ def model_line(case, obs):
             ops.append([now, "X", a])
         elif code in ("L", "K", "N"):
             ops.append([now, code])
+        elif code == "I" and op[3] is None:
+            sid = _ref_num(op[1], issued)
+            if st["out"][1] is None:
+                ops.append([now, "M", sid, "handlerRaised"])  # no session was left behind
+                continue
+            spec = op[2]
+            o = {"id": st["out"][1]}
+            if sid is not None:
+                o["sid"] = sid
+            if not spec.get("noparams") and "client" in spec:
+                o["client"] = spec["client"]
+            ops.append([now, "IS", o])
+            issued = max(issued, st["out"][1] + 1)
         elif code == "I":
             if st["out"][1] is None:
                 return None  # no session id came back: nothing to feed the supply with (oracle reports it)
@@ -324,14 +400,12 @@ def model_line(case, obs):
             ops.append([now, "I", o])
             issued = max(issued, st["out"][1] + 1)
         elif code == "R":
-            if op[2] is None or op[2] == "":
-                continue  # no method: the dispatcher answers "invalid request" before it looks at the session
-            ops.append([now, "R", _ref_num(op[1], issued)])
+            ops.append([now, "M", _ref_num(op[1], issued), kind_of(op[2], op[3])])
     return {"m": "session", "answers": answers, "ops": ops}
 
 
 def _no_model_op(op):
-    return op[0] == "T" or (op[0] == "R" and (op[2] is None or op[2] == ""))
+    return op[0] == "T"
 
 
 def masked_ids(case, obs):
@@ -344,36 +418,44 @@ def masked_ids(case, obs):
     return out
 
 
-def _mask_rows(rows, masked):
-    return sorted(([r[0], "<default>" if r[0] in masked else r[1]] + r[2:] for r in rows), key=lambda r: r[0])
+def masked_versions(case, obs):
+    """sessions left behind by an initialize WITHOUT id: there is no response to read the answered version from"""
+    return {st["out"][1] for op, st in zip(case["ops"], obs["steps"])
+            if op[0] == "I" and op[3] is None and st["out"][1] is not None}
+
+
+def _mask_rows(rows, masked, mver=()):
+    return sorted(([r[0], "<default>" if r[0] in masked else r[1], "<answered>" if r[0] in mver else r[2]] + r[3:] for r in rows),
+                  key=lambda r: r[0])
+
+
+def _mask_out(o, op, masked, mver):
+    if o[0] == "listing":
+        return ["listing", _mask_rows(o[1], masked, mver)]
+    if o[0] == "rec" and o[1] is not None and (op[1] in masked or op[1] in mver):
+        return ["rec", ["<default>" if op[1] in masked else o[1][0], "<answered>" if op[1] in mver else o[1][1]] + o[1][2:]]
+    if o[0] == "silent":
+        return ["unit"]
+    return o
 
 
 def impl_shape(case, obs):
-    masked = masked_ids(case, obs)
+    masked, mver = masked_ids(case, obs), masked_versions(case, obs)
     outs, snaps = [], []
     for op, st in zip(case["ops"], obs["steps"]):
         if _no_model_op(op):
             continue
-        o = st["out"]
-        if o[0] == "listing":
-            o = ["listing", _mask_rows(o[1], masked)]
-        elif o[0] == "rec" and o[1] is not None and op[1] in masked:
-            o = ["rec", ["<default>"] + o[1][1:]]
-        outs.append(o)
-        snaps.append(_mask_rows(st["snap"]["sessions"], masked))
+        outs.append(_mask_out(st["out"], op, masked, mver))
+        snaps.append(_mask_rows(st["snap"]["sessions"], masked, mver))
     return {"outs": outs, "snaps": snaps}
 
 
 def model_shape(out, case, obs):
     if "driver_error" in out:
         return out
-    masked = masked_ids(case, obs)
+    masked, mver = masked_ids(case, obs), masked_versions(case, obs)
     outs = []
     real_ops = [op for op in case["ops"] if not _no_model_op(op)]
     for op, o in zip(real_ops, out["outs"]):
-        if o[0] == "listing":
-            o = ["listing", _mask_rows(o[1], masked)]
-        elif o[0] == "rec" and o[1] is not None and op[1] in masked:
-            o = ["rec", ["<default>"] + o[1][1:]]
-        outs.append(o)
-    return {"outs": outs, "snaps": [_mask_rows(s, masked) for s in out["snaps"]]}
+        outs.append(_mask_out(o, op, masked, mver))
+    return {"outs": outs, "snaps": [_mask_rows(s, masked, mver) for s in out["snaps"]]}
